@@ -100,10 +100,57 @@ def toTextWork (_ : Unit) (v : View) : Unit × Out :=
 def toTextBlock : Block :=
   { σ := Unit, init := (), work := toTextWork, eof := fun _ _ => false }
 
+/-! ### VecToStream (src/vec_to_stream.rs)
+
+A packet input is a stream of one value per packet: the packet's samples as base-2^65 digits `x + 1`
+(`encodePkt`; the empty packet is 0). The harness feeds whole packets, `consumed` counts packets. -/
+
+def pktBase : Nat := 2 ^ 65
+
+def encodePkt : List Nat → Nat
+  | [] => 0
+  | x :: rest => (x + 1) + pktBase * encodePkt rest
+
+def decodePktF : Nat → Nat → List Nat
+  | 0, _ => []
+  | fuel + 1, c => if c = 0 then [] else (c % pktBase - 1) :: decodePktF fuel (c / pktBase)
+
+def decodePkt (c : Nat) : List Nat := decodePktF (c.log2 + 1) c
+
+/-- tag key codes of `VecToStream::start` / `VecToStream::end` in the harness encoding -/
+def v2sStartKey : Nat := 905
+def v2sEndKey : Nat := 906
+
+def v2sWork (_ : Unit) (v : View) : Unit × Out :=
+  match (in0 v).samples with
+  | [] => ((), noOut v (.waitIn 0 1))
+  | code :: _ =>
+    let pkt := decodePkt code
+    let n := pkt.length
+    if n > (out0 v).free then ((), noOut v (.waitOut 0 n))
+    else if n == 0 then ((), { consumed := [1], produced := [⟨[], []⟩], verdict := .again })
+    else
+      ((), { consumed := [1]
+             produced := [⟨pkt, [⟨0, v2sStartKey, n⟩, ⟨n - 1, v2sEndKey, n⟩]⟩]
+             verdict := .again })
+
+def v2sBlock : Block :=
+  { σ := Unit, init := (), work := v2sWork, eof := fun _ v => macroEof v }
+
+/-! ### ConstantSource (src/constant_source.rs): fills all the free space, every call -/
+
+def constWork (val : Nat) (_ : Unit) (v : View) : Unit × Out :=
+  ((), { consumed := [], produced := [⟨List.replicate (out0 v).free val, []⟩], verdict := .waitOut 0 1 })
+
+def constBlock (val : Nat) : Block :=
+  { σ := Unit, init := (), work := constWork val, eof := fun _ _ => false }
+
 def convRegistry (name : String) (p : List Nat) : Option Block :=
   match name, p with
   | "s2pdu", [key, maxSize, tail] => some (s2pBlock key maxSize tail)
   | "totext", [_n] => some toTextBlock
+  | "v2s", [] => some v2sBlock
+  | "constsrc", [val] => some (constBlock val)
   | _, _ => none
 
 end RR.Blk
